@@ -389,7 +389,9 @@ pub fn run_world(spec: &SchedSpec, n: usize, yield_mode: u8, stack_kib: usize, b
     assert!(IN_WORLD.load(Ordering::Relaxed) == 0, "worlds do not nest");
     YIELD_MODE.store(yield_mode, Ordering::Relaxed);
     *EVENTS.lock().unwrap() = Some(EventLog { fp: Fp::new(), n: 0, last_task: usize::MAX, switches_seen: 0 });
-    let step0 = STEP.load(Ordering::Relaxed);
+    // stamps are relative to the run: one seed = one repeatable execution, wherever it runs
+    STEP.store(0, Ordering::Relaxed);
+    let step0 = 0;
     IN_WORLD.store(if cfg!(feature = "shuttle") { 1 } else { 2 }, Ordering::Relaxed);
     let (decisions, switches) = engine::run(spec, n, stack_kib, body);
     IN_WORLD.store(0, Ordering::Relaxed);
